@@ -1,16 +1,38 @@
 package main
 
 // Part C - histories over ONE verifier whose keys come from the provider's JWKS endpoint (rp.NewRemoteKeySet directly, or the
-// key set of a relying party built by rp.NewRelyingPartyOIDC). The endpoint is the scripted fakejwks server: the first
-// download of a step may fail (transport error, 5xx, truncated / unparsable / foreign documents, a failing body), the
-// provider rotates its keys between steps, a caller may come with a context that is already over.
+// key set of a relying party built by rp.NewRelyingPartyOIDC). The endpoint is the scripted fakejwks server.
 //
-// Oracle (from the statement): every step is judged by the same reference predicate as the single-token cases. Soundness
-// holds whatever happens at the endpoint. Completeness is demanded of a step when, during that step, the endpoint served
-// a document containing the key the token is signed with, no download failed, the caller's context was alive, and no
-// download was pending when the step began. The last condition is established by state, not by time: the harness waits
-// until no goroutine of the process is inside (*remoteKeySet).updateKeys (watchdog expiry = inconclusive). What an earlier
-// step met - a failed download, a cancelled caller, other keys - is no excuse for refusing a later one.
+// A history is a sequence of phases. Before a phase the provider may rotate its keys (publish the next generation next to
+// the current one, replace the current one, withdraw the older one - up to three rotations, four key generations); the
+// first download of a phase may fail (transport error, 5xx, truncated / unparsable / foreign documents, a failing body), or
+// the endpoint may be down for a run of phases (every download fails). The provider follows one key-ID policy for the
+// whole history: a key ID of its own for every key; no key IDs at all; two key IDs used in turn (blue/green: a new key takes
+// the ID of the key withdrawn before the last); key IDs in the document but none in the tokens.
+//
+// A phase is either one verification, or an OVERLAP: 2-4 verifications on the one verifier while the first download of the
+// phase is held at the endpoint. The callers are started one after the other; each is waited for until it has returned or
+// is parked in the key set's wait for the pending download (goroutine state); then the contexts of chosen callers are
+// cancelled and those callers are waited for; only then the endpoint answers. No sleeps, no timing: the gate of the
+// endpoint and the contexts are the harness's own, a watchdog only turns a hang into "inconclusive".
+//
+// Oracle (from the statement): every call is judged on its own by the same reference predicate as the single-token cases.
+// Soundness holds whatever happens at the endpoint. Completeness is demanded of a call unless one of these excuses
+// holds, each a fact at the harness's boundaries:
+//   - the caller's own context was cancelled (before the call, or by the harness while the call was parked);
+//   - the key the token is signed with is not in the document the provider serves;
+//   - the token can not be attributed to one published key (no key ID on one side and several published keys of that
+//     key family);
+//   - the endpoint failed a download during the phase (as scripted) AND the verifier had not been handed the key before:
+//     the last document that was delivered to this verifier did not contain it. A failing endpoint is no excuse for
+//     refusing a token whose key the provider has delivered to the verifier and still publishes;
+//   - the last delivered document holds ANOTHER key under the token's key ID (the provider reuses a key ID while the
+//     verifier was never told that the older key went) and no document with the right key was delivered during the call.
+// What is no excuse: anything an earlier phase met (failed downloads, cancelled callers, other keys, withdrawn keys),
+// and what happens to ANOTHER caller of the same phase - a download that ends because some caller's context ended is a
+// failure of the verifier, not of the endpoint.
+// "No download pending when a phase begins" is established by state: the harness waits until no goroutine of the process
+// is inside (*remoteKeySet) (watchdog expiry = inconclusive).
 
 import (
 	"bytes"
@@ -21,6 +43,7 @@ import (
 	"runtime"
 	"slices"
 	"strings"
+	"sync/atomic"
 	"time"
 
 	jose "github.com/go-jose/go-jose/v4"
@@ -35,6 +58,17 @@ import (
 const (
 	ksBase  = 1 << 30 // case index of history h is ksBase+h
 	jwksURL = "https://op.example.com/c01-keys"
+	ksGens  = 4 // key generations of one history
+
+	kidUnique    = "own-key-id-per-key"
+	kidNone      = "no-key-ids"
+	kidBlueGreen = "two-key-ids-in-turn"
+	kidTokenless = "key-ids-published-not-in-tokens"
+)
+
+var (
+	ksAlgs     = []string{"RS256", "ES256", "EdDSA", "PS256", "ES384"}
+	ksPolicies = []string{kidUnique, kidUnique, kidUnique, kidNone, kidNone, kidBlueGreen, kidBlueGreen, kidTokenless}
 )
 
 var ksFaults = []fakejwks.Step{
@@ -44,99 +78,222 @@ var ksFaults = []fakejwks.Step{
 	{Kind: fakejwks.StatusBody, Status: 200, Body: fakejwks.BodyForeign}, {Kind: fakejwks.StatusBody, Status: 200, Body: fakejwks.BodyEmpty},
 }
 
-type ksStep struct {
-	Rotate string         // "" | add-B | only-B : what the provider does before the step
-	Sign   string         // A | B : the key the step's token is signed with
-	Fault  *fakejwks.Step // the first download of the step is answered with this (nil: healthy endpoint)
-	Ctx    string         // live | cancelled
-	Break  string         // "" or the dimension that is made hostile (soundness under faults)
+// initGenKeys creates the key generations of the histories (generation g of algorithm a is its own key).
+func initGenKeys() {
+	done := make(chan struct{})
+	n := 0
+	for g := 0; g < ksGens; g++ {
+		for _, a := range ksAlgs {
+			n++
+			go func(g int, a string) { genKey(g, a); done <- struct{}{} }(g, a)
+		}
+	}
+	for ; n > 0; n-- {
+		<-done
+	}
+}
+
+func genKey(g int, alg string) *keys.Key {
+	return keys.Get(fmt.Sprintf("c01-generation-%d", g), jose.SignatureAlgorithm(alg))
+}
+
+type ksCaller struct {
+	Sign  string // current | older | withdrawn | future | foreign: which key the caller's token is signed with
+	Ctx   string // live | cancelled (before the call) | cancelled-while-held (by the harness, while the first download is held)
+	Break string // "" or the dimension that is made hostile (soundness under faults)
+}
+
+type ksPhase struct {
+	Rotate  string         // "" | add-next | only-next | drop-older : what the provider does before the phase
+	Fault   *fakejwks.Step // the first download of the phase is answered with this (nil: healthy endpoint)
+	Outage  bool           // every download of the phase is answered with Fault
+	Hold    bool           // the first download is held at the endpoint until every caller has arrived
+	Callers []ksCaller
 }
 
 type ksHistory struct {
 	Route  string // remote-keyset | rp-oidc
-	AlgA   string
-	AlgB   string
-	Steps  []ksStep
-	cfgRnd *rand.Rand
+	Policy string
+	Algs   [ksGens]string
+	Phases []ksPhase
+}
+
+func (p *ksPhase) describe() string {
+	f := "healthy"
+	if p.Fault != nil {
+		f = "first-download:" + p.Fault.String()
+		if p.Outage {
+			f = "down:" + p.Fault.String()
+		}
+	}
+	x := "endpoint=" + f
+	if p.Rotate != "" {
+		x = "rotate=" + p.Rotate + " " + x
+	}
+	if p.Hold {
+		x += " first-download-held"
+	}
+	var cs []string
+	for _, c := range p.Callers {
+		s := "sign=" + c.Sign + " ctx=" + c.Ctx
+		if c.Break != "" {
+			s += " hostile=" + c.Break
+		}
+		cs = append(cs, s)
+	}
+	return x + " callers=[" + strings.Join(cs, "; ") + "]"
 }
 
 func (h *ksHistory) describe() map[string]any {
 	var st []string
-	for _, s := range h.Steps {
-		f := "healthy"
-		if s.Fault != nil {
-			f = s.Fault.String()
-		}
-		x := fmt.Sprintf("sign=%s endpoint=%s ctx=%s", s.Sign, f, s.Ctx)
-		if s.Rotate != "" {
-			x = "rotate=" + s.Rotate + " " + x
-		}
-		if s.Break != "" {
-			x += " hostile=" + s.Break
-		}
-		st = append(st, x)
+	for _, p := range h.Phases {
+		st = append(st, p.describe())
 	}
-	return map[string]any{"keys_from": h.Route, "key_A": h.AlgA, "key_B": h.AlgB, "steps": st}
+	return map[string]any{"keys_from": h.Route, "key_id_policy": h.Policy, "key_generation_algs": h.Algs, "phases": st}
+}
+
+func drawSign(r *rand.Rand, pubN int) string {
+	switch k := r.IntN(20); {
+	case k < 13:
+		return "current"
+	case k < 15:
+		if pubN > 1 {
+			return "older"
+		}
+		return "current"
+	case k < 16:
+		return "withdrawn"
+	case k < 18:
+		return "future"
+	case k < 19:
+		return "foreign"
+	}
+	return "current"
 }
 
 func drawHistory(r *rand.Rand) *ksHistory {
-	h := &ksHistory{Route: pick(r, "remote-keyset", "rp-oidc"), AlgA: pick(r, "RS256", "ES256", "EdDSA", "PS256", "ES384")}
-	for h.AlgB = h.AlgA; h.AlgB == h.AlgA; {
-		h.AlgB = pick(r, "RS256", "ES256", "EdDSA", "RS384", "ES512")
+	h := &ksHistory{Route: pick(r, "remote-keyset", "rp-oidc"), Policy: pick(r, ksPolicies...)}
+	h.Algs[0] = pick(r, ksAlgs...)
+	for g := 1; g < ksGens; g++ {
+		h.Algs[g] = h.Algs[g-1] // the same algorithm (and key family) as the generation before, more often than not
+		if r.IntN(3) == 0 {
+			h.Algs[g] = pick(r, ksAlgs...)
+		}
 	}
 	n := 3 + r.IntN(5)
-	rotateAt := -1
-	if r.IntN(4) != 0 {
-		rotateAt = 1 + r.IntN(n-1)
-	}
-	rotated := ""
+	pubN, rotations, outage := 1, 0, 0
+	var outageFault fakejwks.Step
 	for i := 0; i < n; i++ {
-		s := ksStep{Sign: "A", Ctx: "live"}
-		if i == rotateAt {
-			s.Rotate = pick(r, "add-B", "add-B", "only-B")
-			rotated = s.Rotate
-		}
-		switch {
-		case rotated == "only-B":
-			s.Sign = "B"
-			if r.IntN(8) == 0 {
-				s.Sign = "A" // a key the provider no longer publishes
+		p := ksPhase{}
+		outageBegins := false
+		if i > 0 && r.IntN(5) < 2 {
+			switch {
+			case pubN == 2:
+				p.Rotate = pick(r, "drop-older", "drop-older", "only-next")
+			default:
+				p.Rotate = pick(r, "add-next", "only-next", "only-next")
 			}
-		case rotated == "add-B":
-			s.Sign = pick(r, "A", "B", "B")
-		case r.IntN(10) == 0:
-			s.Sign = "B" // not published yet
+			if p.Rotate != "drop-older" && rotations == ksGens-1 {
+				p.Rotate = ""
+			}
+			switch p.Rotate {
+			case "add-next":
+				pubN, rotations = 2, rotations+1
+			case "only-next":
+				pubN, rotations = 1, rotations+1
+			case "drop-older":
+				pubN = 1
+			}
 		}
-		if r.IntN(3) == 0 {
+		switch k := r.IntN(12); {
+		case outage > 0:
+			f := outageFault
+			p.Fault, p.Outage = &f, true
+			outage--
+		case k < 3:
 			f := pick(r, ksFaults...)
-			s.Fault = &f
+			p.Fault = &f
+		case k <= 4 && i > 0:
+			outageFault = pick(r, ksFaults...)
+			f := outageFault
+			p.Fault, p.Outage = &f, true
+			outage = 1 + r.IntN(2)
+			outageBegins = true
 		}
-		if r.IntN(10) == 0 {
-			s.Ctx = "cancelled"
+		overlap := false
+		forceMiss := false // the first caller's token is signed with a key no verifier can hold: it makes the verifier download
+		switch {
+		case i == 0:
+			overlap = r.IntN(3) == 0
+		case p.Rotate == "add-next" || p.Rotate == "only-next":
+			overlap = r.IntN(2) == 0
+		default:
+			overlap = r.IntN(6) == 0
+			forceMiss = overlap
 		}
-		if r.IntN(8) == 0 {
-			s.Break = pick(r, "iss", "aud", "exp", "azp", "nonce", "sub")
+		if !overlap {
+			c := ksCaller{Sign: drawSign(r, pubN), Ctx: "live"}
+			if outageBegins && r.IntN(2) == 0 {
+				c.Sign = pick(r, "future", "foreign") // anybody can send such a token: the verifier asks the endpoint, which is down
+			}
+			if r.IntN(10) == 0 {
+				c.Ctx = "cancelled"
+			}
+			if r.IntN(8) == 0 {
+				c.Break = pick(r, "iss", "aud", "exp", "azp", "nonce", "sub")
+			}
+			p.Callers = []ksCaller{c}
+		} else {
+			p.Hold = true
+			nc := 2 + r.IntN(3)
+			for j := 0; j < nc; j++ {
+				c := ksCaller{Sign: drawSign(r, pubN), Ctx: "live"}
+				if j == 0 {
+					c.Sign = "current"
+					if forceMiss {
+						c.Sign = pick(r, "future", "foreign")
+					}
+				}
+				switch k := r.IntN(12); {
+				case k == 0:
+					c.Ctx = "cancelled"
+				case k < 4 || (j == 0 && k < 7):
+					c.Ctx = "cancelled-while-held"
+				}
+				if j > 0 && r.IntN(10) == 0 {
+					c.Break = pick(r, "iss", "aud", "exp", "azp", "nonce", "sub")
+				}
+				p.Callers = append(p.Callers, c)
+			}
 		}
-		h.Steps = append(h.Steps, s)
+		h.Phases = append(h.Phases, p)
 	}
 	return h
 }
 
+// ---------------------------------------------------------------------------------------------
+// goroutine state
+// ---------------------------------------------------------------------------------------------
+
 var stackBuf = make([]byte, 1<<20)
+
+func dumpAll() []byte {
+	n := runtime.Stack(stackBuf, true)
+	for n == len(stackBuf) {
+		stackBuf = make([]byte, 2*len(stackBuf))
+		n = runtime.Stack(stackBuf, true)
+	}
+	return stackBuf[:n]
+}
 
 // quiescent waits until no goroutine of the process is inside, or was started by, a method of the remote key set, i.e. no key
 // download is pending or being wound up. State based; the watchdog only turns a hang into "inconclusive".
 func quiescent() bool {
 	deadline := time.Now().Add(10 * time.Second)
 	for i := 0; ; i++ {
-		n := runtime.Stack(stackBuf, true)
-		for n == len(stackBuf) {
-			stackBuf = make([]byte, 2*len(stackBuf))
-			n = runtime.Stack(stackBuf, true)
-		}
 		// any frame of the key set, and any goroutine created by it that has not reached its first frame yet
 		// ("created by ...(*remoteKeySet).keysFromRemote", entry wrapper "...keysFromRemote.gowrap1")
-		if !bytes.Contains(stackBuf[:n], []byte("(*remoteKeySet).")) {
+		if !bytes.Contains(dumpAll(), []byte("(*remoteKeySet).")) {
 			return true
 		}
 		if time.Now().After(deadline) {
@@ -150,44 +307,406 @@ func quiescent() bool {
 	}
 }
 
-func jwksOf(ks ...*keys.Key) []byte {
-	set := jose.JSONWebKeySet{}
-	for _, k := range ks {
-		set.Keys = append(set.Keys, jose.JSONWebKey{Key: k.Public(), KeyID: k.Kid, Use: "sig", Algorithm: string(k.Alg)})
+func goid() int64 {
+	var buf [64]byte
+	n := runtime.Stack(buf[:], false)
+	var id int64
+	for _, ch := range buf[len("goroutine "):n] {
+		if ch < '0' || ch > '9' {
+			break
+		}
+		id = id*10 + int64(ch-'0')
+	}
+	return id
+}
+
+var kfrSuffix = []byte(".(*remoteKeySet).keysFromRemote")
+
+// parkedInKeySet reports whether goroutine id is blocked in the select of (*remoteKeySet).keysFromRemote - waiting for a
+// pending download (or for its own context). One dump is a consistent snapshot.
+func parkedInKeySet(id int64) bool {
+	b := dumpAll()
+	head := []byte(fmt.Sprintf("goroutine %d [", id))
+	for len(b) > 0 {
+		var block []byte
+		if i := bytes.Index(b, []byte("\n\n")); i >= 0 {
+			block, b = b[:i], b[i+2:]
+		} else {
+			block, b = b, nil
+		}
+		if !bytes.HasPrefix(block, head) {
+			continue
+		}
+		lines := bytes.SplitN(block, []byte("\n"), 3)
+		if len(lines) < 2 || !bytes.HasPrefix(lines[0][len(head):], []byte("select")) {
+			return false
+		}
+		fn := lines[1]
+		if i := bytes.LastIndexByte(fn, '('); i > 0 {
+			fn = fn[:i]
+		}
+		return bytes.HasSuffix(fn, kfrSuffix)
+	}
+	return false
+}
+
+// ---------------------------------------------------------------------------------------------
+// the provider's documents and the verifier's knowledge
+// ---------------------------------------------------------------------------------------------
+
+// docEntry is one key of a JWKS document as published.
+type docEntry struct {
+	key *keys.Key
+	kid string
+}
+
+func jwksOf(doc []docEntry) []byte {
+	set := jose.JSONWebKeySet{Keys: []jose.JSONWebKey{}}
+	for _, e := range doc {
+		set.Keys = append(set.Keys, jose.JSONWebKey{Key: e.key.Public(), KeyID: e.kid, Use: "sig", Algorithm: string(e.key.Alg)})
 	}
 	b, _ := json.Marshal(set)
 	return b
 }
 
-// runHistory plays history h. It must be the only thing running (quiescent looks at every goroutine of the process).
+func family(alg string) string {
+	switch {
+	case strings.HasPrefix(alg, "RS"), strings.HasPrefix(alg, "PS"):
+		return "RSA"
+	case strings.HasPrefix(alg, "ES"):
+		return "EC"
+	}
+	return "OKP"
+}
+
+// fits lists the keys of a document a token (key ID, algorithm) can be attributed to: the key with the token's key ID, or -
+// when either side has no key ID - every key of the algorithm's family. exact: attributed by key ID.
+func fits(doc []docEntry, tokenKid, alg string) (out []docEntry, exact bool) {
+	for _, e := range doc {
+		if family(string(e.key.Alg)) != family(alg) {
+			continue
+		}
+		if tokenKid != "" && e.kid == tokenKid {
+			return []docEntry{e}, true
+		}
+		if tokenKid == "" || e.kid == "" {
+			out = append(out, e)
+		}
+	}
+	return out, false
+}
+
+func docHas(doc []docEntry, k *keys.Key) bool {
+	for _, e := range doc {
+		if e.key == k {
+			return true
+		}
+	}
+	return false
+}
+
+func docString(doc []docEntry) string {
+	var s []string
+	for _, e := range doc {
+		s = append(s, fmt.Sprintf("%s(kid=%q,%s)", e.key.Kid, e.kid, e.key.Alg))
+	}
+	return "[" + strings.Join(s, " ") + "]"
+}
+
+// ---------------------------------------------------------------------------------------------
+// playing a history
+// ---------------------------------------------------------------------------------------------
+
+type ksWorld struct {
+	run      *ev.Run
+	idx      int64
+	hi       int
+	h        *ksHistory
+	r        *rand.Rand
+	verbose  bool
+	c        *cfg
+	srv      *fakejwks.Server
+	verifier *rp.IDTokenVerifier
+	ctx      context.Context
+
+	gens      [ksGens]*keys.Key
+	foreign   *keys.Key
+	published []int // generations, oldest first
+	withdrawn []int
+	// lastDoc: the last document that was delivered to this verifier (hasDoc false: none yet)
+	lastDoc []docEntry
+	hasDoc  bool
+	// maybe: documents that were delivered while no caller with a live context was waiting for them - the verifier may or
+	// may not have taken them; until the next delivery somebody waited for, nothing counts as handed to the verifier
+	maybe []docEntry
+
+	played                                                       []map[string]any
+	rotations                                                    int
+	afterFailed, afterFailedKnown, afterRotation, afterCancelled bool
+	reusedKid                                                    map[string]bool // key IDs of withdrawn generations
+	// failedSinceDelivery: a download failed after the last document was delivered (the verifier holds that document, if it
+	// kept it)
+	failedSinceDelivery bool
+	callerSeq           int
+}
+
+// jwksKid / tokenKid: the key ID of generation g in the document / in a token header, by the provider's policy.
+func (w *ksWorld) jwksKid(g int) string {
+	switch w.h.Policy {
+	case kidNone:
+		return ""
+	case kidBlueGreen:
+		return []string{"blue", "green"}[g%2]
+	}
+	return w.gens[g].Kid + "/" + w.h.Algs[g]
+}
+
+func (w *ksWorld) tokenKid(g int) string {
+	if w.h.Policy == kidTokenless {
+		return ""
+	}
+	return w.jwksKid(g)
+}
+
+func (w *ksWorld) foreignKid(inToken bool) string {
+	switch {
+	case w.h.Policy == kidNone, inToken && w.h.Policy == kidTokenless:
+		return ""
+	case w.h.Policy == kidBlueGreen:
+		return "teal"
+	}
+	return "c01-foreign"
+}
+
+func (w *ksWorld) publishedDoc() []docEntry {
+	var d []docEntry
+	for _, g := range w.published {
+		d = append(d, docEntry{w.gens[g], w.jwksKid(g)})
+	}
+	return d
+}
+
+// signer resolves a caller's choice to a key and the key ID its token carries.
+func (w *ksWorld) signer(sign string) (*keys.Key, string, string) {
+	newest := w.published[len(w.published)-1]
+	switch sign {
+	case "older":
+		g := w.published[0]
+		return w.gens[g], w.tokenKid(g), fmt.Sprintf("generation-%d", g)
+	case "withdrawn":
+		if len(w.withdrawn) > 0 {
+			g := w.withdrawn[len(w.withdrawn)-1]
+			return w.gens[g], w.tokenKid(g), fmt.Sprintf("generation-%d(withdrawn)", g)
+		}
+	case "future":
+		if newest+1 < ksGens {
+			g := newest + 1
+			return w.gens[g], w.tokenKid(g), fmt.Sprintf("generation-%d(not yet published)", g)
+		}
+		return w.foreign, w.foreignKid(true), "foreign"
+	case "foreign":
+		return w.foreign, w.foreignKid(true), "foreign"
+	}
+	return w.gens[newest], w.tokenKid(newest), fmt.Sprintf("generation-%d", newest)
+}
+
+type ksCall struct {
+	spec      ksCaller
+	id        int
+	key       *keys.Key
+	kid       string
+	keyName   string
+	tc        *tokenCase
+	ctx       context.Context
+	cancel    context.CancelFunc
+	gid       atomic.Int64
+	done      chan struct{}
+	res       result
+	startSeq  int64
+	endSeq    int64
+	parked    bool // seen parked in the key set's wait while a download was held at the endpoint
+	heldAtArr bool // a download was held at the endpoint when the caller was started
+	cancelled bool // its context was cancelled by the harness while it was parked
+	returned  bool // ... and it had returned before the endpoint answered
+}
+
+func (w *ksWorld) prepare(spec ksCaller) *ksCall {
+	key, kid, name := w.signer(spec.Sign)
+	cs := *w.c // the hostile dimension of one call may touch the configuration it is judged by; the verifier keeps the original
+	v := validVec(w.r, &cs, string(key.Alg))
+	if spec.Break != "" {
+		breakDim(w.r, &cs, v, spec.Break)
+		v.Broken = append(v.Broken, spec.Break)
+		if cs.key() != w.c.key() {
+			cs = *w.c // the verifier was built before: a hostile value that needs another configuration is dropped
+			v = validVec(w.r, &cs, string(key.Alg))
+			v.Broken = nil
+		}
+	}
+	v.Class = "keyset-history"
+	tc := materialiseCase(w.run, w.r, &cs, v, key.With(kid, key.Alg, "sig"))
+	if tc == nil {
+		return nil
+	}
+	w.callerSeq++
+	cl := &ksCall{spec: spec, id: w.callerSeq, key: key, kid: kid, keyName: name, tc: tc, done: make(chan struct{})}
+	cl.ctx, cl.cancel = context.WithCancel(fakejwks.WithCaller(w.ctx, cl.id))
+	if spec.Ctx == "cancelled" {
+		cl.cancel()
+	}
+	return cl
+}
+
+func (w *ksWorld) start(cl *ksCall) {
+	cl.heldAtArr = w.srv.Waiting() > 0
+	go func() {
+		cl.gid.Store(goid())
+		cl.startSeq = mon.Seq()
+		cl.res = call(cl.tc, cl.ctx, w.verifier)
+		cl.endSeq = mon.Seq()
+		close(cl.done)
+	}()
+}
+
+func isDone(cl *ksCall) bool {
+	select {
+	case <-cl.done:
+		return true
+	default:
+		return false
+	}
+}
+
+const ksWatchdog = 10 * time.Second
+
+// settle waits until the caller has returned, or is parked in the key set's wait while a download is held at the endpoint.
+// false: neither happened (watchdog).
+func (w *ksWorld) settle(cl *ksCall) bool {
+	deadline := time.Now().Add(ksWatchdog)
+	for i := 0; ; i++ {
+		if isDone(cl) {
+			return true
+		}
+		if w.srv.Waiting() > 0 {
+			if id := cl.gid.Load(); id != 0 && parkedInKeySet(id) {
+				cl.parked = true
+				return true
+			}
+		}
+		if time.Now().After(deadline) {
+			return false
+		}
+		if i < 200 {
+			runtime.Gosched()
+		} else {
+			time.Sleep(20 * time.Microsecond)
+		}
+	}
+}
+
+func waitDone(cl *ksCall, patience time.Duration) bool {
+	if isDone(cl) {
+		return true
+	}
+	t := time.NewTimer(patience)
+	defer t.Stop()
+	select {
+	case <-cl.done:
+		return true
+	case <-t.C:
+		return false
+	}
+}
+
+// delivered: the document a finished download handed to the verifier (ok false: none - the download failed).
+func (w *ksWorld) delivered(d fakejwks.Download, published []docEntry) ([]docEntry, bool) {
+	if d.EndSeq == 0 || d.Cancelled() {
+		return nil, false
+	}
+	st := d.ScriptStep()
+	switch st.Kind {
+	case fakejwks.Deliver:
+		return published, true
+	case fakejwks.StatusBody:
+		if st.Status != 200 {
+			return nil, false
+		}
+		switch st.Body {
+		case fakejwks.BodyCurrent:
+			return published, true
+		case fakejwks.BodyForeign:
+			return []docEntry{{w.foreign, w.foreignKid(false)}}, true
+		case fakejwks.BodyEmptyObject, fakejwks.BodyEmptyKeys, fakejwks.BodyMessage:
+			return nil, true // a well-formed document without keys
+		}
+	}
+	return nil, false
+}
+
+func (w *ksWorld) rotate(how string) {
+	newest := w.published[len(w.published)-1]
+	switch how {
+	case "add-next":
+		w.published = append(w.published, newest+1)
+	case "only-next":
+		w.withdrawn = append(w.withdrawn, w.published...)
+		w.published = []int{newest + 1}
+	case "drop-older":
+		w.withdrawn = append(w.withdrawn, w.published[:len(w.published)-1]...)
+		w.published = []int{newest}
+	}
+	if how != "" {
+		w.afterRotation = true
+		if how != "drop-older" {
+			w.rotations++
+		}
+		for _, g := range w.withdrawn {
+			w.reusedKid[w.jwksKid(g)] = true
+		}
+	}
+}
+
+// seen marks a mandatory scenario as observed and counts it.
+func (w *ksWorld) seen(name string) {
+	w.run.Observed(name)
+	w.run.Count("keyset_scenario", name)
+}
+
+// runHistory plays history hi. It must be the only thing running (the oracle looks at every goroutine of the process).
 func runHistory(run *ev.Run, hi int, verbose bool) {
-	idx := int64(ksBase + hi)
 	r := run.CaseRand(streamKeySet, hi)
 	h := drawHistory(r)
-	keyA, keyB := signers[h.AlgA], signers[h.AlgB]
-	foreign := keys.Get("c01-foreign", jose.ES256)
+	w := &ksWorld{run: run, idx: int64(ksBase + hi), hi: hi, h: h, r: r, verbose: verbose, published: []int{0}, reusedKid: map[string]bool{}}
+	for g := range w.gens {
+		w.gens[g] = genKey(g, h.Algs[g])
+	}
+	w.foreign = keys.Get("c01-foreign", jose.ES256)
 
-	// one configuration for the whole history; both algorithms allowed
-	c := drawCfg(r, h.AlgA)
-	c.Algs, c.AlgsKind = []string{h.AlgA, h.AlgB}, "two"
-	c.Route, c.Published, c.DiscURL = "direct", "", false
-	srv := fakejwks.New()
-	srv.SetAltBody(jwksOf(foreign))
-	srv.BeginPhase(jwksOf(keyA), nil, fakejwks.Step{Kind: fakejwks.Deliver})
+	// one configuration for the whole history; every algorithm of the history allowed
+	c := drawCfg(r, h.Algs[0])
+	c.Algs, c.AlgsKind = nil, "history"
+	for _, a := range h.Algs {
+		if !slices.Contains(c.Algs, a) {
+			c.Algs = append(c.Algs, a)
+		}
+	}
+	c.Route, c.Published, c.DiscURL, c.DiscKind = "direct", "", false, ""
+	w.c = c
+	w.srv = fakejwks.New()
+	w.srv.SetAltBody(jwksOf([]docEntry{{w.foreign, w.foreignKid(false)}}))
+	w.srv.BeginPhase(jwksOf(w.publishedDoc()), nil, fakejwks.Step{Kind: fakejwks.Deliver})
 
 	if !quiescent() {
 		run.Inconclusive("key-set history: a key download of an earlier case never ended")
 		return
 	}
-	var verifier *rp.IDTokenVerifier
-	var ctx context.Context
 	var berr error
 	pi := mon.Catch(func() {
 		if h.Route == "rp-oidc" {
 			c.Route = "rp-oidc"
-			verifier, ctx, berr = c.build(nil, srv)
+			w.verifier, w.ctx, berr = c.build(nil, w.srv)
 		} else {
-			verifier, ctx, berr = c.build(rp.NewRemoteKeySet(srv.Client(), jwksURL), nil)
+			w.verifier, w.ctx, berr = c.build(rp.NewRemoteKeySet(w.srv.Client(), jwksURL), nil)
 		}
 	})
 	if pi != nil || berr != nil {
@@ -195,140 +714,314 @@ func runHistory(run *ev.Run, hi int, verbose bool) {
 		return
 	}
 	run.Count("keyset_history_keys_from", h.Route)
+	run.Count("keyset_history_key_id_policy", h.Policy)
+	for pi, p := range h.Phases {
+		if !w.play(pi, p) {
+			return
+		}
+		if run.Violations() > 0 && verbose {
+			return
+		}
+	}
+	run.Count("keyset_history_rotations", fmt.Sprint(w.rotations))
+}
 
-	published := []*keys.Key{keyA}
-	cached := "cache-empty"
-	afterFailed, afterFailedCached, afterRotation, afterCancelled := false, false, false, false
-	var played []map[string]any
-	for si, s := range h.Steps {
-		switch s.Rotate {
-		case "add-B":
-			published = []*keys.Key{keyA, keyB}
-		case "only-B":
-			published = []*keys.Key{keyB}
+// play plays one phase and judges its calls. false: the history can not go on.
+func (w *ksWorld) play(pi int, p ksPhase) bool {
+	run, srv := w.run, w.srv
+	w.rotate(p.Rotate)
+	published := w.publishedDoc()
+	first, def := fakejwks.Step{Kind: fakejwks.Deliver}, fakejwks.Step{Kind: fakejwks.Deliver}
+	if p.Fault != nil {
+		first = *p.Fault
+		if p.Outage {
+			def = *p.Fault
 		}
-		if s.Rotate != "" {
-			afterRotation = true
-		}
-		key := keyA
-		if s.Sign == "B" {
-			key = keyB
-		}
-		var script []fakejwks.Step
-		if s.Fault != nil {
-			script = []fakejwks.Step{*s.Fault}
-		}
-		srv.BeginPhase(jwksOf(published...), script, fakejwks.Step{Kind: fakejwks.Deliver})
+	}
+	first.Hold = p.Hold
+	srv.BeginPhase(jwksOf(published), []fakejwks.Step{first}, def)
+	lastBefore, hadDoc, maybeBefore := w.lastDoc, w.hasDoc, w.maybe
 
-		cs := *c // the hostile dimension of one step may touch the configuration it is judged by; the verifier keeps the original
-		v := validVec(r, &cs, string(key.Alg))
-		if s.Break != "" {
-			breakDim(r, &cs, v, s.Break)
-			v.Broken = append(v.Broken, s.Break)
-			if cs.key() != c.key() {
-				cs = *c // the verifier was built before: a hostile value that needs another configuration is dropped
-				v = validVec(r, &cs, string(key.Alg))
-				v.Broken = nil
+	var calls []*ksCall
+	for _, spec := range p.Callers {
+		cl := w.prepare(spec)
+		if cl == nil {
+			return false
+		}
+		calls = append(calls, cl)
+	}
+	abandon := func(why string) bool {
+		srv.ReleaseAll()
+		for _, cl := range calls {
+			cl.cancel()
+		}
+		run.Inconclusive(why)
+		return false
+	}
+	// arrivals, one after the other
+	for _, cl := range calls {
+		w.start(cl)
+		if !w.settle(cl) {
+			return abandon("key-set history: a caller neither returned nor was parked in the key set's wait (watchdog)")
+		}
+	}
+	// cancellations while the first download is held
+	if p.Hold {
+		for _, cl := range calls {
+			if cl.spec.Ctx != "cancelled-while-held" || isDone(cl) || srv.Waiting() == 0 {
+				continue
+			}
+			cl.cancelled = true
+			cl.cancel()
+			cl.returned = waitDone(cl, ksWatchdog/2)
+			if !cl.returned {
+				run.Count("keyset_overlap", "a cancelled caller did not return while the download was held")
 			}
 		}
-		v.Class = "keyset-history"
-		tc := materialiseCase(run, r, &cs, v, key)
-		if tc == nil {
-			return
+		// every other caller is where it was: returned, or still parked (or refused meanwhile - the oracle decides)
+	}
+	heldWhenReleased := srv.Waiting()
+	srv.ReleaseAll()
+	for _, cl := range calls {
+		if !waitDone(cl, ksWatchdog) {
+			return abandon("key-set history: a caller never returned after the endpoint answered (watchdog)")
 		}
-		tc.scenario = "remote-keys"
-		sctx := ctx
-		if s.Ctx == "cancelled" {
-			var cancel context.CancelFunc
-			sctx, cancel = context.WithCancel(ctx)
-			cancel()
+	}
+	for _, cl := range calls {
+		cl.cancel()
+	}
+	if !quiescent() {
+		run.Inconclusive("key-set history: a key download never ended")
+		return false
+	}
+
+	// what happened at the endpoint
+	log := srv.Log()
+	var dl []string
+	scriptedFault := false
+	for _, d := range log {
+		dl = append(dl, fmt.Sprintf("#%d started-under-caller-%d %s -> %s", d.Idx, d.Owner, d.Step, d.Outcome))
+		if d.ScriptedFaulty() {
+			scriptedFault = true
 		}
-		res := call(tc, sctx, verifier)
-		if !quiescent() {
-			run.Inconclusive("key-set history: a key download never ended")
-			return
+	}
+	starter := -1
+	if len(log) > 0 {
+		starter = log[0].Owner
+	}
+	var starterCall *ksCall
+	for _, cl := range calls {
+		if cl.id == starter {
+			starterCall = cl
 		}
-		log := srv.Log()
+	}
+	shape := "single"
+	if p.Hold {
+		np := 0
+		for _, cl := range calls {
+			if cl.parked {
+				np++
+			}
+		}
+		shape = fmt.Sprintf("overlap callers=%d parked=%d held-at-release=%d", len(calls), np, heldWhenReleased)
+		run.Count("keyset_overlap_shape", shape)
+	}
+
+	phaseDesc := map[string]any{"phase": pi, "what": p.describe(), "provider_publishes": docString(published),
+		"verifier_was_last_handed": docString(lastBefore), "delivered_before_while_no_live_caller_waited": docString(maybeBefore), "downloads_during_phase": dl}
+	var callDescs []map[string]any
+	phaseDesc["calls"] = &callDescs
+	w.played = append(w.played, phaseDesc)
+
+	// first every call of the phase is described (a witness shows the whole phase), then each is judged on its own
+	type judged struct {
+		greys []string
+		known bool
+		role  string
+	}
+	js := make([]judged, len(calls))
+	for ci, cl := range calls {
+		alg := string(cl.key.Alg)
 		var greys []string
-		var dl []string
-		failed := false
-		for _, d := range log {
-			dl = append(dl, d.Outcome)
-			if !d.OK() || d.EndSeq == 0 {
-				failed = true
-			}
-		}
-		if failed {
-			greys = append(greys, "jwks-download-failed-during-the-call")
-		}
-		if s.Ctx == "cancelled" {
+		ctxOver := cl.spec.Ctx == "cancelled" || cl.cancelled
+		if ctxOver {
 			greys = append(greys, "caller-context-cancelled")
 		}
-		if !slices.Contains(published, key) {
+		isPublished := docHas(published, cl.key)
+		pubFit, _ := fits(published, cl.kid, alg)
+		attributable := len(pubFit) == 1 && pubFit[0].key == cl.key
+		switch {
+		case !isPublished:
 			greys = append(greys, "signing-key-not-published")
+		case !attributable:
+			greys = append(greys, "several-published-keys-fit-a-token-without-key-id")
 		}
-		fault := "healthy"
-		if s.Fault != nil {
-			fault = s.Fault.String()
+		lastFit, exact := fits(lastBefore, cl.kid, alg)
+		known := hadDoc && len(lastFit) == 1 && lastFit[0].key == cl.key
+		staleKid := hadDoc && exact && lastFit[0].key != cl.key
+		if mf, ex := fits(maybeBefore, cl.kid, alg); ex && mf[0].key != cl.key {
+			staleKid = true
 		}
-		stepDesc := map[string]any{"step": si, "rotate": s.Rotate, "signed_with": s.Sign + "/" + key.Kid, "endpoint_first_download": fault, "caller_context": s.Ctx,
-			"hostile_dimension": s.Break, "downloads_during_step": dl, "payload": string(tc.raw), "id_token": tc.token, "access_token": tc.access, "entry": v.Entry}
-		if res.err != nil {
-			stepDesc["library_error"] = res.err.Error()
+		told := false
+		for _, d := range log {
+			if doc, ok := w.delivered(d, published); ok && d.EndSeq > cl.startSeq && d.EndSeq < cl.endSeq {
+				if f, _ := fits(doc, cl.kid, alg); len(f) == 1 && f[0].key == cl.key {
+					told = true
+				}
+			}
+		}
+		if scriptedFault && !known {
+			greys = append(greys, "jwks-download-failed-during-the-call")
+		}
+		if staleKid && !told {
+			greys = append(greys, "verifier-was-handed-another-key-under-this-key-id")
+		}
+		// the class of a refusal is named by the one circumstance of the history that is most specific to it
+		scenario := "remote-keys"
+		switch {
+		case scriptedFault && known:
+			scenario += "+endpoint-failing-key-delivered-before"
+		case p.Hold:
+			scenario += "+overlapping-callers"
+		case w.h.Policy != kidUnique:
+			scenario += "+" + w.h.Policy
+		}
+		cl.tc.scenario = scenario
+
+		role := "single"
+		if p.Hold {
+			switch {
+			case cl.id == starter:
+				role = "started-the-download"
+			case cl.parked:
+				role = "joined-the-held-download"
+			case cl.heldAtArr:
+				role = "returned-while-a-download-was-held"
+			default:
+				role = "returned-before-any-download"
+			}
+		}
+		cd := map[string]any{"call": ci, "caller_id": cl.id, "signed_with": cl.keyName + "/" + cl.key.Kid, "token_key_id": cl.kid, "alg": alg,
+			"caller_context": cl.spec.Ctx, "cancelled_by_harness_while_parked": cl.cancelled, "returned_before_the_endpoint_answered": cl.returned,
+			"role": role, "hostile_dimension": cl.spec.Break, "key_delivered_to_verifier_before": known, "excuses": greys,
+			"payload": string(cl.tc.raw), "id_token": cl.tc.token, "access_token": cl.tc.access, "entry": cl.tc.v.Entry}
+		if cl.res.err != nil {
+			cd["library_error"] = cl.res.err.Error()
 		} else {
-			stepDesc["library_error"] = nil
+			cd["library_error"] = nil
 		}
-		played = append(played, stepDesc)
-		extra := map[string]any{"history": h.describe(), "history_steps_played": played, "failing_step": si,
-			"how_to_read": "one verifier for the whole history; the judged call is the last played step; no key download was pending when it began"}
-		zone, accepted := judge(run, idx, tc, res, greys, extra, verbose)
+		callDescs = append(callDescs, cd)
+		js[ci] = judged{greys, known, role}
+	}
+	for ci, cl := range calls {
+		greys, known, role := js[ci].greys, js[ci].known, js[ci].role
+		extra := map[string]any{"history": w.h.describe(), "history_phases_played": w.played, "failing_phase": pi, "failing_call": ci,
+			"how_to_read": "one verifier for the whole history; the judged call is call " + fmt.Sprint(ci) + " of the last played phase; no key download was pending when the phase began; " +
+				"in an overlap the callers were started in order, each waited for until returned or parked, then the marked contexts were cancelled and waited for, then the endpoint answered"}
+		zone, accepted := judge(run, w.idx, cl.tc, cl.res, greys, extra, w.verbose)
 
 		outcome := "refused"
 		if accepted {
 			outcome = "accepted"
 		}
 		ep := "healthy"
-		if s.Fault != nil {
+		if p.Fault != nil {
 			ep = "first-download-faulty"
-			run.Count("keyset_fault_kind", faultClass(s.Fault))
+			if p.Outage {
+				ep = "down"
+			}
+			run.Count("keyset_fault_kind", faultClass(p.Fault))
 		}
-		run.Count("keyset_step", fmt.Sprintf("%s endpoint=%s ctx=%s downloads=%d zone=%s -> %s", cached, ep, s.Ctx, len(log), zone, outcome))
+		cache := "nothing-delivered-yet"
+		if hadDoc {
+			cache = "key-not-delivered-before"
+			if known {
+				cache = "key-delivered-before"
+			}
+		}
+		run.Count("keyset_step", fmt.Sprintf("%s %s endpoint=%s ctx=%s downloads=%d zone=%s -> %s", role, cache, ep, cl.spec.Ctx, len(log), zone, outcome))
+		for _, g := range greys {
+			run.Count("keyset_excuse", g+" -> "+outcome)
+		}
+		run.Count("keyset_key_id_policy_zone", w.h.Policy+" "+zone+" -> "+outcome)
 		if zone == "must-accept" && accepted {
-			if afterFailed {
-				run.Observed("keyset:accept-after-a-failed-download")
+			if w.afterFailed {
+				w.seen("keyset:accept-after-a-failed-download")
 			}
-			if afterFailedCached && len(log) > 0 {
-				run.Observed("keyset:accept-by-new-download-after-a-failed-refresh")
+			if w.afterFailedKnown && len(log) > 0 {
+				w.seen("keyset:accept-by-new-download-after-a-failed-refresh")
 			}
-			if afterRotation && s.Sign == "B" {
-				run.Observed("keyset:accept-after-rotation")
+			if w.afterRotation && cl.spec.Sign == "current" {
+				w.seen("keyset:accept-after-rotation")
+				w.seen("keyset:accept-after-rotation:" + w.h.Policy)
+				if w.rotations >= 2 {
+					w.seen("keyset:accept-after-second-rotation:" + w.h.Policy)
+				}
+				if w.h.Policy == kidBlueGreen && w.reusedKid[cl.kid] {
+					w.seen("keyset:accept-under-a-key-id-reused-after-withdrawal")
+				}
 			}
-			if afterCancelled {
-				run.Observed("keyset:accept-after-a-cancelled-caller")
+			if w.afterCancelled {
+				w.seen("keyset:accept-after-a-cancelled-caller")
 			}
-			run.Observed("keyset:accept-via-" + h.Route)
+			w.seen("keyset:accept-via-" + w.h.Route)
+			if known && p.Fault != nil && w.failedSinceDelivery {
+				w.seen("keyset:accept-delivered-key-at-a-failing-endpoint-after-a-failed-refresh")
+			}
+			if p.Hold {
+				if cl.parked && starterCall != nil && starterCall != cl && starterCall.cancelled && starterCall.returned {
+					w.seen("keyset:overlap:accept-joiner-after-the-starter-was-cancelled-and-left")
+				}
+				if cl.parked && cl.id != starter {
+					w.seen("keyset:overlap:accept-joiner")
+				}
+				if known && cl.heldAtArr {
+					w.seen("keyset:overlap:accept-delivered-key-while-a-refresh-is-held")
+					if scriptedFault {
+						w.seen("keyset:overlap:accept-delivered-key-although-the-held-refresh-fails")
+					}
+				}
+			}
 		}
-		if zone == "must-reject" && !accepted && (failed || afterFailed) {
-			run.Observed("keyset:reject-hostile-token-under-faults")
-		}
-		if failed {
-			afterFailed = true
-			if cached != "cache-empty" {
-				afterFailedCached = true
-			}
-		}
-		if s.Ctx == "cancelled" {
-			afterCancelled = true
-		}
-		for _, d := range log {
-			if d.OK() {
-				cached = "cache-filled"
-			}
-		}
-		if run.Violations() > 0 && verbose {
-			return
+		if zone == "must-reject" && !accepted && (scriptedFault || w.afterFailed) {
+			w.seen("keyset:reject-hostile-token-under-faults")
 		}
 	}
+
+	// what the verifier has been handed by now, and what later phases may not take as an excuse
+	for _, d := range log {
+		doc, ok := w.delivered(d, published)
+		switch {
+		case ok:
+			waitedFor := false
+			for _, cl := range calls {
+				if !(cl.spec.Ctx == "cancelled" || cl.cancelled) && cl.startSeq < d.EndSeq && d.EndSeq < cl.endSeq {
+					waitedFor = true
+				}
+			}
+			if waitedFor {
+				w.lastDoc, w.hasDoc, w.maybe, w.failedSinceDelivery = doc, true, nil, false
+			} else {
+				w.maybe = append(append(append([]docEntry(nil), w.maybe...), w.lastDoc...), doc...)
+				w.lastDoc, w.hasDoc, w.failedSinceDelivery = nil, false, false
+				run.Count("keyset_overlap", "a document was delivered while no live caller waited for it (counted as neither handed over nor withheld)")
+			}
+		case d.ScriptedFaulty() && w.hasDoc:
+			w.failedSinceDelivery = true
+		}
+	}
+	if scriptedFault {
+		w.afterFailed = true
+		if hadDoc {
+			w.afterFailedKnown = true
+		}
+	}
+	for _, cl := range calls {
+		if cl.spec.Ctx == "cancelled" || cl.cancelled {
+			w.afterCancelled = true
+		}
+	}
+	return true
 }
 
 func faultClass(f *fakejwks.Step) string {
@@ -339,4 +1032,9 @@ func faultClass(f *fakejwks.Step) string {
 }
 
 var ksMandatory = []string{"keyset:accept-after-a-failed-download", "keyset:accept-by-new-download-after-a-failed-refresh", "keyset:accept-after-rotation",
-	"keyset:accept-after-a-cancelled-caller", "keyset:accept-via-remote-keyset", "keyset:accept-via-rp-oidc", "keyset:reject-hostile-token-under-faults"}
+	"keyset:accept-after-a-cancelled-caller", "keyset:accept-via-remote-keyset", "keyset:accept-via-rp-oidc", "keyset:reject-hostile-token-under-faults",
+	"keyset:accept-after-rotation:" + kidUnique, "keyset:accept-after-rotation:" + kidNone, "keyset:accept-after-rotation:" + kidBlueGreen, "keyset:accept-after-rotation:" + kidTokenless,
+	"keyset:accept-after-second-rotation:" + kidNone, "keyset:accept-after-second-rotation:" + kidBlueGreen, "keyset:accept-under-a-key-id-reused-after-withdrawal",
+	"keyset:accept-delivered-key-at-a-failing-endpoint-after-a-failed-refresh",
+	"keyset:overlap:accept-joiner", "keyset:overlap:accept-joiner-after-the-starter-was-cancelled-and-left",
+	"keyset:overlap:accept-delivered-key-while-a-refresh-is-held", "keyset:overlap:accept-delivered-key-although-the-held-refresh-fails"}
